@@ -519,6 +519,9 @@ class Run:
                 run.calls.append((who, kind, market_id, pt))
                 if inj and inj["who"] == who and inj["kind"] == kind and inj["market"] == market_id and inj["pt"] == pt:
                     if inj["mode"] == "raise":
+                        if inj.get("exc") == "flumine":
+                            from flumine.exceptions import FlumineException
+                            raise FlumineException("injected by the checker")      # the framework's own exception family: logged, never re-raised
                         raise RuntimeError("injected by the checker")
                     return True
                 return False
